@@ -152,6 +152,22 @@ theorem wrap2_exact (a w : Rat) :
     · simp only [hc, if_true, Rat.sub_eq_add_neg]
     · simp only [hc, if_false]
 
+/-- binary64 arithmetic: `wrap2` is C43's rounded instantiation -/
+theorem wrap2_float (a w : Rat) :
+    wrap2 floatArith (.fin a) (.fin w) = .ok (.fin (Wrap.wrap2F a w)) := by
+  unfold wrap2 Wrap.wrap2F
+  by_cases hw : w = 0
+  · subst hw; simp [ne, isNan, zero]
+  · have hne : ne (.fin w) zero = true := (ne_fin_zero w).2 hw
+    have h2 : Wrap.rn (w * 2) ≠ 0 := fun e => hw (by have := (Wrap.rn_eq_zero_iff _).1 e; grind)
+    have hnw : -w ≠ 0 := by grind
+    simp only [hne, if_true, ne_eq, hw, not_false_eq_true]
+    simp only [floatArith, xmul, two, rnN, pmod, fin_ne_zero h2, if_false, xmod, Num.abs, gt, lt,
+      decide_eq_true_eq, xsub, Num.neg, xadd, fin_ne_zero hnw, Wrap.pymodF]
+    by_cases hc : Wrap.pabs w < Wrap.pabs (Wrap.rn (Wrap.pymod a (Wrap.rn (w * 2))))
+    · simp only [hc, if_true, Rat.sub_eq_add_neg]
+    · simp only [hc, if_false]
+
 /-! ## no `ZeroDivisionError` -/
 
 theorem pdiv_ok (A : Arith) (x y : Num) (h : y ≠ zero) : pdiv A x y = .ok (A.div x y) := by
